@@ -66,6 +66,7 @@ def check_renumber(mir, res, rule):
         res.violate(rule, "normaliser|sort-input", sortc[0].where, "the states that are sorted are `%s`, not the automaton's own state list" % arg)
     upd = "%s.1" % U
     want_start = re.compile(r"^StateIndex::StateIndex\{IndexUpdater::update\(%s, const\(0_usize\)\)\}$" % re.escape(upd))
+    vals["start"] = inline_helpers(mir, vals.get("start", ""), kinds=("Closure",))
     res.inst(rule, "normaliser|start", w, True, vals.get("start", "")[:160])
     if not want_start.match(vals.get("start", "")):
         res.violate(rule, "normaliser|start", w, "the start state must be the new position of the old first state (`updater.update(0)` with the updater of the same sort); found `%s`" % vals.get("start", "")[:200])
@@ -81,11 +82,14 @@ def check_renumber(mir, res, rule):
     def closures(g):
         return [c_ for c_ in mir.fns.values() if c_.kind == "Closure" and c_.parent == g.key]
 
-    def check_one(g, elem, updv):
-        """g renumbers one transition `elem` with updater `updv`: either aggregates it itself or calls the function that does"""
+    def check_one(g, elem, updv, cap=None):
+        """g renumbers one transition `elem` with updater `updv`: either aggregates it itself or calls the function that does.
+        cap = what the closure g captured (a renumbering closure over the updater is looked through by inlining it)"""
         ts = agg_fields(g, Exprs(g), "machine::Transition")
         if len(ts) == 1:
             v, w2 = ts[0]
+            if cap is not None:
+                v = {k_: inline_helpers(mir, re.sub(r"\bparam1\.0\b", lambda _m: cap, x_), kinds=("Closure",)) for k_, x_ in v.items()}
             ok = v.get("from") == WANT_T["from"] % (updv, elem) and v.get("to") == WANT_T["to"] % (updv, elem) and v.get("symbol") == WANT_T["symbol"] % elem
             res.inst(rule, "transition-updater", w2, True, "%s" % v)
             if not ok:
@@ -103,11 +107,16 @@ def check_renumber(mir, res, rule):
     def check_set(g, expr, src_pat, updv_in_g):
         """expr (in g) = collect(map(into_iter(<all transitions>), closure{upd}))"""
         m2 = re.match(r"^Iterator::collect\(Iterator::map\(IntoIterator@\w+::into_iter\((.*)\), [\w:]+::(\{closure#\d+\})\{(.*)\}\)\)$", expr)
-        if not m2 or not re.match(src_pat, m2.group(1)) or re.search(r"filter|skip|take|step_by|rev\(", m2.group(1)) or m2.group(3) != updv_in_g:
+        if not m2 or not re.match(src_pat, m2.group(1)) or re.search(r"filter|skip|take|step_by|rev\(", m2.group(1)):
             return False
         cl = [c_ for c_ in closures(g) if c_.path.endswith(m2.group(2))]
         if len(cl) != 1:
             return False
+        if m2.group(3) != updv_in_g:
+            # the map closure captured something else than the updater: accepted only when what it captured, inlined,
+            # renumbers with the updater (a local `renumber` closure over it)
+            res.inst(rule, "set-updater", g.where, True, expr[:200])
+            return check_one(cl[0], "param2", updv_in_g, cap=m2.group(3))
         res.inst(rule, "set-updater", g.where, True, expr[:200])
         return check_one(cl[0], "param2", "param1.0")
 
